@@ -19,7 +19,7 @@ class Crash(BaseException):
 
 HANDLERS = ('handle_upload_config_echo', 'handle_upload_encrypted_database_echo', 'handle_create_config', 'handle_create_key',
             'handle_encrypt_database', 'handle_upload_config', 'handle_upload_encrypted_database', 'close_service',
-            'handle_search_token', 'handle_keyword_search')
+            'handle_search_token', 'handle_keyword_search', 'record_sname_id_pair', 'create_service')
 
 
 def handler_on_stack():
